@@ -31,7 +31,7 @@ struct S4 { arr: array<vec3<f32>, 3>, s: f32, arr2: array<f32, 5>, arr3: array<m
 struct S5 { a: f32, inner: Inner, b: f32, inners: array<Inner, 2>, c: u32 }
 struct S7 { n: u32, data: array<vec3<f32>> }
 struct S8 { hdr: Inner, data: array<Inner> }
-struct S9 { n: atomic<u32>, v: vec2<f32>, w: array<array<f32, 2>, 3> }
+struct S9 { n: atomic<u32>, v: vec2<f32>, w: array<array<f32, 2>, 3>, x: array<array<vec3<f32>, 2>, 3>, y: f32, z: array<array<mat2x2<f32>, 2>, 2> }
 struct S10 { m: mat3x3<f32>, data: array<mat2x2<f32>> }
 @group(0) @binding(0) var<storage, read_write> s1: S1;
 @group(0) @binding(1) var<storage, read_write> s2: S2;
@@ -134,7 +134,9 @@ def native_encase(ctx, src, names, label):
     S = ctx.S
     kind, toks, text_ = ctx.gen_tokens(src, OPTS)
     if kind != 'ok':
-        raise Inconclusive(f'corpus does not generate: {kind} {toks}')
+        if label == 'corpus':
+            raise Inconclusive(f'corpus does not generate: {kind} {toks}')
+        return [], 0
     sts, order = decode_structs(toks)
     d = S.dump(src)
     mj, layouts = d['module'], d['layouts']
@@ -165,12 +167,17 @@ def native_encase(ctx, src, names, label):
             runs.append(f'{{ let mut c = 0u32; let v = {fn}(&mut c); let mut b = encase::StorageBuffer::new(Vec::<u8>::new()); b.write(&v).unwrap(); '
                         f'out.push(("{name}:{k}".to_string(), b.into_inner())); }}')
     out.append('pub fn run() -> Vec<(String, Vec<u8>)> { let mut out = Vec::new(); ' + ' '.join(runs) + ' out }')
-    crate = os.path.join(VERIF, 'encase_oracle')
+    # work on a private copy of the helper crate so that the committed tree is never touched
+    import shutil
+    crate = os.path.join(VERIF, '.cache', f'encase_oracle_work_{os.getpid()}')
+    shutil.rmtree(crate, ignore_errors=True)
+    shutil.copytree(os.path.join(VERIF, 'encase_oracle'), crate)
     open(os.path.join(crate, 'src', 'generated.rs'), 'w').write('\n'.join(out) + '\n')
     env = dict(os.environ, CARGO_NET_OFFLINE='true', CARGO_TARGET_DIR=os.path.join(VERIF, '.cache', 'encase-target'))
-    p = subprocess.run(['cargo', 'run', '--offline', '-q'], cwd=crate, env=env, capture_output=True, text=True, timeout=1200)
-    # restore the stub so that the committed tree is unchanged
-    open(os.path.join(crate, 'src', 'generated.rs'), 'w').write('pub fn run() -> Vec<(String, Vec<u8>)> { Vec::new() }\n')
+    try:
+        p = subprocess.run(['cargo', 'run', '--offline', '-q'], cwd=crate, env=env, capture_output=True, text=True, timeout=1200)
+    finally:
+        shutil.rmtree(crate, ignore_errors=True)
     if p.returncode != 0:
         return [{'struct': label, 'problem': 'generated structs do not compile / run against encase + glam', 'stderr': p.stderr[-1500:]}], 0
     bad, n = [], 0
@@ -307,8 +314,8 @@ def run(ctx):
     HA = TypeHole(ctx, 'HA')
     f32sem = {'kind': 'Float', 'width': 4, 'dims': [], 'leaf': 0, 'repr': 'scalar'}
     HB = TypeHole(ctx, 'HB', array_bases=[(hh['HA'], HA, lambda m: HA.wgsl(m)), (named['Inner'], {'struct': 'Inner'}, 'Inner'), (hf32, f32sem, 'f32')])
-    HC = TypeHole(ctx, 'HC', array_bases=[(hh['HA'], HA, lambda m: HA.wgsl(m)), (named['Inner'], {'struct': 'Inner'}, 'Inner'), (hf32, f32sem, 'f32')],
-                  allow_dynamic=True)
+    HC = TypeHole(ctx, 'HC', array_bases=[(hh['HA'], HA, lambda m: HA.wgsl(m)), (named['Inner'], {'struct': 'Inner'}, 'Inner'), (hf32, f32sem, 'f32'),
+                                          (hh['HB'], HB, lambda m: HB.wgsl(m))], allow_dynamic=True)
     holes = {'HA': HA, 'HB': HB, 'HC': HC}
 
     def representable(h):
@@ -334,7 +341,7 @@ def run(ctx):
             alts = []
             for hnd, what, _ in hole.bases:
                 if isinstance(what, TypeHole):
-                    alts.append(z3.And(base_term == hnd, class_ok(what, sem)))
+                    alts.append(z3.And(base_term == hnd, class_ok(what, sem, bm_for(what) if what.bases else None)))
                 elif 'struct' in what:
                     alts.append(z3.And(base_term == hnd, z3.BoolVal(sem == what)))
                 else:
@@ -350,8 +357,13 @@ def run(ctx):
         for k, h in holes.items():
             assume += h.assumption()
             assume.append(representable(h))
+            assume.append(z3.ULE(h.alen, 4))          # witnesses are instantiated and written through real encase: keep arrays small
             if k not in plan:
-                assume += [h.tdisc == h.TI['Scalar'], h.kind == h.SK['Float'], h.width == 4]
+                # not symbolic in this run: HA is a vec3<f32>, HB an array of HA (so HC can be an array of arrays of vectors)
+                if k == 'HB':
+                    assume += [h.tdisc == h.TI['Array'], h.base == hh['HA'], h.alen == 2, z3.Not(h.adyn)]
+                else:
+                    assume += [h.tdisc == h.TI['Vector'], h.vsize == 3, h.kind == h.SK['Float'], h.width == 4]
         res = ctx.explore(f'structs/glam+encase/symbolic-{"+".join(plan)}',
                           lambda it: it.call('structs', [mkref(module), write_options(S.conv, matrix_vector_types='Glam', derive_encase_host_shareable=True)]),
                           assume=assume, anchors=['structs', 'rust_struct', 'struct_members', 'rust_type'], timeout_s=3000)
